@@ -1,19 +1,5 @@
 """C08 - import result does not depend on how and when captures arrive (harness/builder, harness/vtraffic)."""
 
-import json
-import os
-
-
-def _open_findings_of(prop):
-    """ids of the open findings filed under another property whose shapes this check has to avoid as well
-    (the driver only hands a check the findings of its own property)."""
-    path = os.path.join(os.path.dirname(os.path.dirname(os.path.dirname(os.path.abspath(__file__)))), "known_findings.json")
-    try:
-        return [f["id"] for f in json.load(open(path)).get("findings", []) if f.get("property") == prop and f.get("status") == "open"]
-    except Exception:  # noqa
-        return []
-
-
 CHECK = {
     "pkg": "internal/index/builder",
     "level": "exploration",
@@ -36,8 +22,6 @@ CHECK = {
     "assumptions": ["traffic is well-formed as described in harness/vtraffic/types.go",
                     "a capture file is written into the capture directory when it arrives, never earlier",
                     "while a not yet arrived capture leaves a hole of >= 5 min in a flow, two streams for that flow are accepted"],
-    # C08 reuses the C05 traffic: shapes of open C05 findings are excluded here too (counted in excluded_known)
-    "env": {"VERIF_ALSO_OPEN": ",".join(_open_findings_of("C05"))},
     "rewrites": [
         {"file": "internal/index/builder/builder.go", "pattern": r">= 100_000\b", "replacement": ">= verifSnapshotThreshold()"},
     ],
